@@ -29,12 +29,13 @@ Definition gstep (p : option (list Z)) (o : op) : option (list Z) :=
   | OPrep1 => match p with Some xs => Some [zsum xs] | None => None end
   end.
 Definition grun (p : option (list Z)) (ops : list op) : option (list Z) := fold_left gstep ops p.
-(* sc_stats_accumulate requires a dirty variable (SC_ASSERT (stats->dirty)); sc_stats_compute1 takes sum_values of
-   every variable as its input, i.e. a variable that has been set *)
+(* sc_stats_accumulate requires a dirty variable (SC_ASSERT (stats->dirty)).  sc_stats_compute1 may meet clean variables:
+   since repair F-C13a it skips them (gstep None OPrep1 = None) *)
+Definition needs_dirty (o : op) : Prop := match o with OAcc _ => True | _ => False end.
 Fixpoint legal (p : option (list Z)) (ops : list op) : Prop :=
   match ops with
   | [] => True
-  | o :: tl => match o with OAcc _ | OPrep1 => p <> None | _ => True end /\ legal (gstep p o) tl
+  | o :: tl => (needs_dirty o -> p <> None) /\ legal (gstep p o) tl
   end.
 
 Definition rec5 (s : vst) := (v_count s, v_sum s, v_sq s, v_min s, v_max s).
@@ -54,14 +55,14 @@ Proof.
   rewrite fold_left_add, fold_left_addsq. reflexivity.
 Qed.
 
-Lemma step_inv s p o : Inv s p -> match o with OAcc _ | OPrep1 => p <> None | _ => True end ->
+Lemma step_inv s p o : Inv s p -> (needs_dirty o -> p <> None) ->
   Inv (step s o) (gstep p o).
 Proof.
   intros HI HL. destruct o as [| |v|v|]; simpl.
   - split; reflexivity.
   - split; reflexivity.
   - split; [reflexivity|]. unfold rec5, loc5; simpl. repeat (apply pair_equal_spec; split); lia.
-  - destruct p as [xs|]; [|congruence]. destruct HI as [Hd Hr]. destruct xs as [|x tl].
+  - destruct p as [xs|]; [|exfalso; apply (HL I); reflexivity]. destruct HI as [Hd Hr]. destruct xs as [|x tl].
     + unfold rec5, loc5 in Hr; simpl in Hr. injection Hr as Hc Hs Hq Hm Hx.
       unfold accumulate. rewrite Hc. simpl. split; [exact Hd|]. unfold rec5, loc5; simpl. repeat (apply pair_equal_spec; split); lia.
     + rewrite loc5_cons in Hr. unfold rec5 in Hr. injection Hr as Hc Hs Hq Hm Hx.
@@ -72,11 +73,12 @@ Proof.
       change (zsum (x :: tl ++ [v])) with (zsum ((x :: tl) ++ [v])). change (zsumsq (x :: tl ++ [v])) with (zsumsq ((x :: tl) ++ [v])).
       rewrite zsum_app, zsumsq_app. simpl zsum at 2. simpl zsumsq at 2. simpl length.
       repeat (apply pair_equal_spec; split); simpl; lia.
-  - destruct p as [xs|]; [|congruence]. destruct HI as [Hd Hr].
+  - destruct p as [xs|]; [|simpl in HI; unfold prep1; rewrite HI; exact HI]. destruct HI as [Hd Hr].
     assert (Hs : v_sum s = zsum xs).
     { destruct xs as [|x tl]; [unfold rec5, loc5 in Hr; simpl in Hr; injection Hr; intros; simpl; assumption|].
       rewrite loc5_cons in Hr. unfold rec5 in Hr. congruence. }
-    split; [exact Hd|]. unfold rec5, loc5; simpl. rewrite Hs. repeat (apply pair_equal_spec; split); lia.
+    unfold prep1. rewrite Hd. simpl (1 =? 0). cbv iota.
+    split; [reflexivity|]. unfold rec5, loc5; simpl. rewrite Hs. repeat (apply pair_equal_spec; split); lia.
 Qed.
 
 Lemma run_inv ops : forall s p, Inv s p -> legal p ops -> Inv (run_ops s ops) (grun p ops).
@@ -419,12 +421,24 @@ Proof.
   apply (holds_union_unique (grun_all ps opss)); [rewrite EU; discriminate|exact Pi|exact Pj].
 Qed.
 
-(* a variable that is clean on a rank which does not touch it in this round keeps all its fields *)
-Theorem clean_untouched sts ps opss sts2 i s s2 :
+(* a variable that is clean on a rank which does not touch it in this round keeps all its fields - also when the round
+   ends with sc_stats_compute1 (OPrep1 is the only thing that happens to it) *)
+Lemma clean_prep_only ops : forall s, v_dirty s = 0 -> Forall (fun o => o = OPrep1) ops ->
+  run_ops s ops = s /\ grun None ops = None.
+Proof.
+  induction ops as [|o tl IH]; intros s Hd HF; [split; reflexivity|].
+  inversion HF as [|? ? Ho Ht]; subst. simpl. unfold prep1. rewrite Hd. simpl. apply IH; assumption.
+Qed.
+Theorem clean_untouched sts ps opss sts2 i s ops s2 :
   Forall2 Inv sts ps -> legal_all ps opss -> round_rel sts opss sts2 ->
-  nth_error sts i = Some s -> nth_error ps i = Some None -> nth_error opss i = Some [] -> nth_error sts2 i = Some s2 ->
-  s2 = s.
-Proof. intros HI HL HR H1 H2 H3 H4. exact (round_rank sts ps opss sts2 i s None [] s2 HI HL HR H1 H2 H3 H4). Qed.
+  nth_error sts i = Some s -> nth_error ps i = Some None -> nth_error opss i = Some ops -> Forall (fun o => o = OPrep1) ops ->
+  nth_error sts2 i = Some s2 -> s2 = s.
+Proof.
+  intros HI HL HR H1 H2 H3 HF H4.
+  destruct (Forall2_nth _ _ _ HI i s H1) as [p [Hp HInv]]. rewrite H2 in Hp. injection Hp as <-. simpl in HInv.
+  destruct (clean_prep_only ops s HInv HF) as [E1 E2].
+  pose proof (round_rank sts ps opss sts2 i s None ops s2 HI HL HR H1 H2 H3 H4) as H. rewrite E2, E1 in H. exact H.
+Qed.
 
 (* the case a seeded defect attacked: a rank calls sc_stats_reset (after whatever else) and then contributes nothing,
    other ranks have samples: the reset rank takes part in the reduction and holds the union's statistics afterwards *)
@@ -562,15 +576,25 @@ Proof.
   rewrite <- D in F. destruct F as [F1 [F2 [F3 [F4 [_ F6]]]]]. repeat split; assumption.
 Qed.
 
-(* sc_stats_compute1 on a variable that is CLEAN: the loop of sc_stats_compute1 does not look at the dirty flag, so
-   count, sum_squares, min and max of a clean variable are overwritten although "only dirty variables are updated" *)
-Theorem compute1_clean_refuted : exists s g, v_dirty s = 0 /\ post (prep1 s) g <> s.
-Proof.
-  exists (mkv 0 5 10 30 1 3 0 2 q0 q0 q0), clean_rec. split; [reflexivity|]. vm_compute. intros H. discriminate H.
-Qed.
+(* sc_stats_compute1 (repaired, F-C13a): a clean variable is left untouched by the whole call, whatever the reduction yields *)
+Theorem compute1_clean s g : v_dirty s = 0 -> prep1 s = s /\ post (prep1 s) g = s.
+Proof. intros H. unfold prep1. rewrite H. simpl. split; [reflexivity|]. unfold post. rewrite H. reflexivity. Qed.
 (* on a dirty variable it is what the header says: the variable contributes the single sample sum_values *)
 Theorem compute1_dirty s xs : Inv s (Some xs) -> Inv (prep1 s) (Some [zsum xs]).
-Proof. intros H. apply (step_inv s (Some xs) OPrep1 H). discriminate. Qed.
+Proof. intros H. apply (step_inv s (Some xs) OPrep1 H). intros _. discriminate. Qed.
+(* regression guard for F-C13a: the loop body as it was before the repair (prep1_old) did not test the dirty flag.
+   P = 1: init; accumulate 2; accumulate 4; compute (count 2, sum_squares 20, min 2, max 4, clean); compute1 without touching the
+   variable -> count 1, sum_squares 36, min 6, max 6.  The repaired body leaves the variable as it is. *)
+Theorem compute1_clean_old_refuted :
+  let s0 := run_ops vzero [OInit; OAcc 2; OAcc 4] in
+  let s1 := post s0 (pack 0 s0) in
+  let s2 := post (prep1_old s1) (pack 0 (prep1_old s1)) in
+  v_dirty s1 = 0 /\ rec_of s1 = mk 2 6 20 2 4 0 0 /\ rec_of s2 = mk 1 6 36 6 6 0 0 /\ s2 <> s1 /\
+  post (prep1 s1) (pack 0 (prep1 s1)) = s1.
+Proof.
+  cbv zeta. split; [reflexivity|]. split; [reflexivity|]. split; [reflexivity|]. split; [|reflexivity].
+  intros H. apply (f_equal v_count) in H. vm_compute in H. discriminate H.
+Qed.
 
 (* ---------- the full statement over histories ---------- *)
 (* For every number of ranks, every history of rounds, every choice of reduction trees in every round: after the LAST
@@ -596,4 +620,58 @@ Proof.
   assert (exists s1, nth_error (run_all stsN opss) i = Some s1) as [s1 Hs1].
   { pose proof (run_all_inv _ _ H2 opss H3) as HI1. destruct (Forall2_nth_r _ _ _ HI1 i p1 Hp) as [s1 [E _]]. exists s1; exact E. }
   pose proof (H i s1 p1 s2 Hs1 Hp Hs) as HP. destruct p1; [exact HP|]. rewrite Hs1, HP. reflexivity.
+Qed.
+(* ---------- the clamp SC_MAX (variance, 0.) only guards against rounding ---------- *)
+Definition zsumdev (x : Z) (U : list Z) : Z := fold_right (fun y a => (y - x) * (y - x) + a) 0 U.
+Lemma zsumdev_expand x U : zsumdev x U = zsumsq U - 2 * x * zsum U + Z.of_nat (length U) * (x * x).
+Proof.
+  induction U as [|y tl IH]; [simpl; ring|].
+  change (zsumdev x (y :: tl)) with ((y - x) * (y - x) + zsumdev x tl). rewrite IH.
+  change (length (y :: tl)) with (S (length tl)). rewrite Nat2Z.inj_succ. simpl zsumsq. simpl zsum. ring.
+Qed.
+Lemma zsumdev_nonneg x U : 0 <= zsumdev x U.
+Proof. induction U as [|y tl IH]; simpl; [lia|]. pose proof (Z.square_nonneg (y - x)). lia. Qed.
+Theorem cauchy_schwarz U : zsum U * zsum U <= Z.of_nat (length U) * zsumsq U.
+Proof.
+  induction U as [|x tl IH]; [simpl; lia|].
+  pose proof (zsumdev_nonneg x tl) as D. rewrite zsumdev_expand in D.
+  change (length (x :: tl)) with (S (length tl)). rewrite Nat2Z.inj_succ. simpl zsumsq. simpl zsum.
+  set (n := Z.of_nat (length tl)) in *. set (S := zsum tl) in *. set (Q := zsumsq tl) in *.
+  assert (E : Z.succ n * (x * x + Q) - (x + S) * (x + S) = (n * Q - S * S) + (Q - 2 * x * S + n * (x * x))) by ring.
+  lia.
+Qed.
+
+Theorem variance_exact s q c : 0 < c -> s * s <= c * q ->
+  let '(a, v, _) := derived s q c in (v == inject_Z q / inject_Z c - a * a)%Q.
+Proof.
+  intros Hc Hcs. unfold derived.
+  assert (Hcq : (0 < inject_Z c)%Q) by (unfold Qlt; simpl; lia).
+  assert (Hne : ~ (inject_Z c == 0)%Q) by (intros E; rewrite E in Hcq; apply (Qlt_irrefl 0); exact Hcq).
+  destruct (Qle_bool (inject_Z q / inject_Z c - inject_Z s / inject_Z c * (inject_Z s / inject_Z c)) q0) eqn:E; [|reflexivity].
+  apply Qle_bool_iff in E. apply Qle_antisym; [|exact E].
+  change q0 with 0%Q. unfold Qminus. rewrite <- Qle_minus_iff.
+  apply Qle_shift_div_l; [exact Hcq|].
+  setoid_replace (inject_Z s / inject_Z c * (inject_Z s / inject_Z c) * inject_Z c)%Q with (inject_Z s * inject_Z s / inject_Z c)%Q by (field; exact Hne).
+  apply Qle_shift_div_r; [exact Hcq|]. rewrite <- !inject_Z_mult, <- Zle_Qle. lia.
+Qed.
+
+(* for the statistics of a union: variance = sum_squares / count - average^2 exactly (population variance) *)
+Theorem union_variance_exact ps s : union ps <> [] -> holds_union ps s ->
+  (v_var s == inject_Z (v_sq s) / inject_Z (v_count s) - v_avg s * v_avg s)%Q.
+Proof.
+  intros Hne [_ [[C [S [Q' _]]] D]]. unfold rec_of in *; simpl in *.
+  assert (Hpos : 0 < v_count s) by (rewrite C; destruct (union ps); [congruence|simpl; lia]).
+  assert (Hcs : v_sum s * v_sum s <= v_count s * v_sq s) by (rewrite C, S, Q'; apply cauchy_schwarz).
+  pose proof (variance_exact (v_sum s) (v_sq s) (v_count s) Hpos Hcs) as F. rewrite <- D in F. exact F.
+Qed.
+
+(* a rank that has the variable dirty without any sample (init or reset only) obtains the union's numbers *)
+Theorem no_sample_rank sts ps opss sts2 i s1 s2 :
+  Forall2 Inv sts ps -> legal_all ps opss -> round_rel sts opss sts2 ->
+  nth_error (run_all sts opss) i = Some s1 -> nth_error (grun_all ps opss) i = Some (Some []) -> nth_error sts2 i = Some s2 ->
+  union (grun_all ps opss) <> [] -> holds_union (grun_all ps opss) s2.
+Proof.
+  intros HI HL HR H1 H2 H3 Hne. destruct (round_sound sts ps opss sts2 HI HL HR) as [_ H].
+  pose proof (H i s1 (Some []) s2 H1 H2 H3) as HP. cbv beta iota in HP.
+  destruct (union (grun_all ps opss)); [congruence|exact HP].
 Qed.
